@@ -36,6 +36,14 @@ where
     pub fn parse(text: &'static str, deep: bool) -> ExResult<Self> {
         Ok(if deep { Ex::D(DeepEx::parse(text)?) } else { Ex::F(FlatEx::parse(text)?) })
     }
+    /// 0 = FlatEx::parse, 1 = DeepEx::parse, 2 = FlatEx::parse_wo_compile
+    pub fn parse_form(text: &'static str, form: u8) -> ExResult<Self> {
+        Ok(match form {
+            1 => Ex::D(DeepEx::parse(text)?),
+            2 => Ex::F(FlatEx::parse_wo_compile(text)?),
+            _ => Ex::F(FlatEx::parse(text)?),
+        })
+    }
     pub fn partial(&self, i: usize) -> ExResult<Self> {
         Ok(match self {
             Ex::F(e) => Ex::F(e.clone().partial(i)?),
@@ -57,6 +65,35 @@ where
             (Ex::F(e), true) => Ex::F(e.clone().partial_iter_relaxed(seq.iter().copied(), MissingOpMode::Error)?),
             (Ex::D(e), true) => Ex::D(e.clone().partial_iter_relaxed(seq.iter().copied(), MissingOpMode::Error)?),
         })
+    }
+    /// the same index sequence handed over by iterators without an exact size hint
+    /// (0 = filter, 1 = from_fn, 2 = take_while, 3 = flat_map)
+    pub fn partial_iter_hint(&self, seq: &[usize], kind: u8) -> ExResult<Self> {
+        fn go<T: DiffDataType + Num, I: Iterator<Item = usize> + Clone>(e: &Ex<T>, it: I) -> ExResult<Ex<T>>
+        where
+            <T as std::str::FromStr>::Err: Debug,
+        {
+            Ok(match e {
+                Ex::F(e) => Ex::F(e.clone().partial_iter(it)?),
+                Ex::D(e) => Ex::D(e.clone().partial_iter(it)?),
+            })
+        }
+        let v = seq.to_vec();
+        match kind {
+            0 => go(self, v.into_iter().filter(|_| true)),
+            1 => {
+                let mut k = 0;
+                go(
+                    self,
+                    std::iter::from_fn(move || {
+                        k += 1;
+                        v.get(k - 1).copied()
+                    }),
+                )
+            }
+            2 => go(self, v.into_iter().take_while(|_| true)),
+            _ => go(self, v.into_iter().flat_map(|i| std::iter::once(i))),
+        }
     }
     pub fn convert(&self) -> ExResult<Self> {
         Ok(match self {
@@ -125,6 +162,10 @@ where
     }
     pub fn text(&self) -> String {
         both!(self, e => e.unparse().to_string())
+    }
+    /// (binary_reprs, unary_reprs, operator_reprs)
+    pub fn reprs(&self) -> (Vec<String>, Vec<String>, Vec<String>) {
+        both!(self, e => (e.binary_reprs().to_vec(), e.unary_reprs().to_vec(), e.operator_reprs().to_vec()))
     }
 }
 
@@ -286,6 +327,21 @@ where
             }
             Err(e) => bad("partial_iter-failed", format!("partial_iter{}({seq:?}) failed although the sequential partials succeed: {}", if relaxed { "_relaxed" } else { "" }, e.msg())),
         }
+        if !relaxed {
+            // the index sequence may come from any cloneable iterator, also one without exact size hint
+            for kind in 0..4u8 {
+                out.steps += 1;
+                let what = ["filter", "from_fn", "take_while", "flat_map"][kind as usize];
+                match e0.partial_iter_hint(seq, kind) {
+                    Ok(it) => {
+                        if let Err(m) = same_function(&it, &cur) {
+                            bad("partial_iter(inexact-size-hint)-vs-sequential", format!("indices {seq:?} from a {what} iterator: {m}"));
+                        }
+                    }
+                    Err(e) => bad("partial_iter-failed", format!("partial_iter({seq:?} from a {what} iterator) failed although the sequential partials succeed: {}", e.msg())),
+                }
+            }
+        }
         if !seq.is_empty() && seq.iter().all(|i| *i == seq[0]) {
             out.steps += 1;
             match e0.partial_nth(seq[0], seq.len(), relaxed) {
@@ -371,6 +427,12 @@ where
                     if from_calls() != c0 {
                         bad("work-before-index-error", format!("partial_iter({bad_seq:?}) differentiated before rejecting the invalid index ({} number constructions)", from_calls() - c0));
                     }
+                }
+            }
+            for kind in 0..4u8 {
+                out.steps += 1;
+                if e0.partial_iter_hint(&bad_seq, kind).is_ok() {
+                    bad("index-not-rejected", format!("partial_iter({bad_seq:?} from a {} iterator) accepted an index >= {n}", ["filter", "from_fn", "take_while", "flat_map"][kind as usize]));
                 }
             }
             out.steps += 1;
